@@ -10,8 +10,9 @@ class Check(PropertyCheck):
     pid = "C05"
     props_module = "Properties.Properties_C05"
     extra_targets = ["Extract/ExtractDec.vo"]
-    gen_files = declib.DEC_GEN
-    trusted_base = declib.DEC_TRUSTED
+    gen_files = declib.DEC_GEN + ["ParseTab.v"]
+    extra_props = ["Properties.Properties_C15parse"]
+    trusted_base = declib.PARSE_TRUSTED + declib.DEC_TRUSTED
     assumptions = ["files are byte strings; the process-level glue (work(), scheduler) is covered by C07/C09/C10"]
 
     def corpus(self):
